@@ -5,15 +5,103 @@ import os
 
 VERIF = os.path.dirname(os.path.dirname(os.path.abspath(__file__)))
 
+TB = 'Lean 4.33 kernel; axioms at most propext, Classical.choice, Quot.sound (audited per theorem on every run); hand-written Lean model tied to /repo by the differential correspondence of the same run (bounded by the generators) and by regenerated tables/facts (tools/extract, go/ast); '
+
 CLAIMED = {
+    "C01": dict(
+        text="Theorems (Props/C01.lean) about the model of transpiler.go + converters/bash for every well-formed AST: the script is shebang + helper routines + a sequence of the "
+             "block grammar Shape (if/fi, loop with guarded increment, condition statements, exit test, body, done; non-empty bodies); loop flags _fv<n> numbered 0..n-1 in "
+             "start order, none shared; expressions emit only simple commands; helper counter strictly increasing. Tie: whole model pipeline (lexer, parser, transpiler, bash "
+             "emitter) vs real Transpile byte for byte, and wfStmts of every AST. Go meaning of the lines under /bin/bash: reference-interpreter oracle on executions (search, not proof).",
+        note=TB + "bash semantics and the Python reference interpreter (Go meaning with README caveats) are outside the theorems.",
+        technique="Lean 4 refinement theorem (statement walk -> block grammar) + byte-for-byte model/implementation correspondence + execution oracle",
+        design="7/C01"),
+    "C02": dict(
+        text="Theorems (Props/C02.lean): a used call yields exactly the declared number of values; return stores _rv0.. in order and the call site copies them in order into fresh "
+             "helpers right after the call line; parameters are local copies of $1..$n in order; non-global names inside a function are f<counter>_<name>, globals unchanged; "
+             "each function gets a new counter; multi-assignment reads only _ma<i> temporaries. Behaviour under bash: execution oracle with name reuse across scopes.",
+        note=TB + "bash's `local`, positional parameters and function-call semantics are outside the theorems (execution oracle).",
+        technique="Lean 4 theorems on the calling-convention model + correspondence + execution oracle",
+        design="7/C02"),
+    "C03": dict(
+        text="Theorems (Props/C03.lean): slice literal = increment _dvc, name a new array, store elements 0..n-1 in order; element store = one _sah call with the zero value of the "
+             "element type; functional models of the helper routines _sah (grow/fill/store), _sch (copy, keep rest, report len(src)) and _ssh (inclusive pair = Go half-open slice, "
+             "empty slice included) with their algebraic laws. Aliasing and execution: oracle.",
+        note=TB + "the helper routines are fixed text in the script (covered by the correspondence); that bash runs them as the functional models say is assumed and sampled by the oracle.",
+        technique="Lean 4 theorems on emitted lines and on functional models of the helper routines + correspondence + execution oracle",
+        design="7/C03"),
+    "C04": dict(
+        text="Theorems (Props/C04.lean) for every expression and every converter: the walk requests exactly opCount(e) operations (each operand once; single string index evaluated "
+             "once), operands left to right then the operation, && and || eager, all if/else-if conditions before the if is opened, loop order init/for/incr/cond/test/body. "
+             "Run-time effect order: tracer oracle on executions.",
+        note=TB + "the order of AST children vs source order is the parser's part (AST correspondence).",
+        technique="Lean 4 theorems with a tracing converter (order and multiplicity of converter operations) + correspondence + tracer oracle",
+        design="7/C04"),
+    "C08": dict(
+        text="Theorems (Props/C08.lean): for every literal without $ and backquote the text bash reads between the quotes the converter writes is the literal itself and the quote ends "
+             "where it was closed (model of bash's double-quote rules); escaping distributes over concatenation; through the assignment and printf templates. The negative result "
+             "for $/backquote is proved too (known finding). Run-time values via ${var} in quotes: execution oracle with canaries.",
+        note=TB + "the double-quote model follows Bash manual 3.1.2.3; expansion results not being re-scanned is bash semantics (oracle).",
+        technique="Lean 4 round-trip theorem escape/double-quote scanner + correspondence + execution oracle",
+        design="7/C08"),
     "C11": dict(
         text="Lean theorems about Model/Lexer.lean (see Props/C11.lean; listed in the evidence), the regenerated "
              "lexer tables, and a token-level correspondence between the model and lexer.Tokenize on every run; "
              "search oracle: tokens known by construction of rendered token sequences.",
-        note="Lean kernel; model tied to lexer.go by differential correspondence (bounded by generators) and regenerated tables; "
-             "Go regexp/strconv semantics as modelled by hand-written scanners.",
+        note=TB + "Go regexp/strconv semantics as modelled by hand-written scanners.",
         technique="Lean 4 theorems over a hand-written lexer model + regenerated tables + differential correspondence",
         design="7/C11"),
+    "C12": dict(
+        text="Theorems (Props/C12.lean): CRLF normalisation is the identity on CR-free text and inverts LF->CRLF; tokens carry no layout; the token list is the kept lexemes. "
+             "Layout changes vs emitted bytes of both targets: relayout oracle from the lexeme trace.",
+        note=TB + "the parser's treatment of NEWLINE tokens is covered by correspondence and the relayout oracle, not by a theorem.",
+        technique="Lean 4 theorems on the lexer model + relayout search from the model's lexeme trace",
+        design="7/C12"),
+    "C13": dict(
+        text="Theorems (Props/C13.lean): the lexer terminates on every input with tokens or an error, every iteration consumes input, the token list ends in EOF; every error "
+             "literal in the source is non-empty (regenerated). Parser/emitters: crash/hang oracle with recover and watchdog over token edits, typed near misses, byte soups, import graphs.",
+        note=TB + "termination of parser and emitters is shown for the models (structural recursion / fuel) and sampled for the code.",
+        technique="Lean 4 totality theorems for the lexer model + regenerated error-literal facts + crash/hang search",
+        design="7/C13"),
+    "C14": dict(
+        text="Theorems (Props/C14.lean): the regenerated facts (map ranges, maps.* calls, package-level variables, environment calls, fields of the state-holding structs) equal the "
+             "audited lists; search: fresh processes, relocated trees, interleaved and directed histories on one transpiler object.",
+        note=TB + "purity itself is argued from the audited facts (DESIGN.md); the theorem pins the facts.",
+        technique="regenerated source facts pinned by Lean theorems + differential runs (processes, locations, histories)",
+        design="7/C14"),
+    "C16": dict(
+        text="Theorems (Props/C16.lean): for every well-formed AST the bash script follows the block grammar (non-empty bodies, own closers), nesting depth returns to 0, bodies "
+             "start with a command, an empty block is the no-op. bash -n and the Batch structure (labels, parentheses, helpers, jumps): structural oracles on every emitted script.",
+        note=TB + "the Batch part is decided by the structural oracle and the model correspondence, not yet by theorems.",
+        technique="Lean 4 refinement theorem (block grammar) + bash -n + structural parse of Batch text",
+        design="7/C16"),
+    "C17": dict(
+        text="Theorems (Props/C17.lean): write is exactly one line with one quoted path and one quoted content, printf with a newline, append only when the flag is 1; literal path and "
+             "content are read back byte for byte; non-string arguments are errors; read is cat -- of the quoted path, exists is [ -e ]. File-system effects: execution oracle.",
+        note=TB + "redirection and command-substitution semantics of bash are outside the theorems (known finding: $( ) strips all trailing newlines).",
+        technique="Lean 4 theorems on the emitted line templates + quoting round trip + execution oracle on a scratch file system",
+        design="7/C17"),
+    "C18": dict(
+        text="Theorems (Props/C18.lean): for every bare program name and literal arguments without $/backquote the command line is split by the bash word model into exactly name and "
+             "the given arguments byte for byte; chains are joined left to right by |; a captured chain is h1=$(chain) directly followed by h2=$?. argv probe oracle on executions.",
+        note=TB + "the word-splitting model covers blanks, double quotes and backslash rules; $( ), $? and | are bash semantics (oracle).",
+        technique="Lean 4 theorem: bash word-splitting model inverts the converter's argument quoting + correspondence + argv probe",
+        design="7/C18"),
+    "C19": dict(
+        text="Theorems (Props/C19.lean) about the CLI model (option parsing, per-target run, writes): writes only library output, all targets on success, nothing for a failing target, "
+             "non-zero on every error, input untouched; tie: CLI model vs the built binary on generated invocations and directory trees.",
+        note=TB + "os.WriteFile/ReadFile semantics as modelled by the FS record.",
+        technique="Lean 4 theorems on a CLI/file-system model + differential runs of the built binary",
+        design="7/C19"),
+}
+
+PENDING = {
+    "C05": "check built and run (cmd.exe model calibrated on the suite, Lean Batch emitter model in correspondence), but no Lean theorem is stated yet for the Batch target; not claimed at proof level until Props/C05.lean has theorems",
+    "C06": "check built and run (typed-position table, both targets, model correspondence); Lean theorems about the type rules pending",
+    "C07": "check built and run (scope skeleton generator, model correspondence); Lean theorems about scope rules pending",
+    "C09": "check built and run (import-graph world, defined-before-use oracle); Lean theorems about the call-graph merge and removal pending",
+    "C10": "check built and run (renaming oracle with reserved-name pool); Lean theorems pending",
+    "C15": "check built and run (Go strings package as oracle on executions); a Lean model of std/strings.tsh is pending",
 }
 
 NOT_APPLICABLE_REASON = "check not built yet in this round (model and tie pending); see DESIGN.md section 7"
@@ -46,7 +134,7 @@ def main():
                       kind_free_text="Lean 4 model + theorems (lean/), Go harness (harness/), translator (tools/extract), Python driver (lib/)")],
         checks=checks,
         notes="See DESIGN.md. Fix commits in /repo are listed in known_findings.txt.",
-        not_applicable=[dict(property_id=p, reason=NOT_APPLICABLE_REASON) for p in props if p not in CLAIMED],
+        not_applicable=[dict(property_id=p, reason=PENDING.get(p, NOT_APPLICABLE_REASON)) for p in props if p not in CLAIMED],
     )
     with open(os.path.join(VERIF, "MANIFEST.json"), "w") as fh:
         json.dump(m, fh, indent=1)
